@@ -126,6 +126,16 @@ func TestC11(t *testing.T) {
 
 	r.Set("cases_with_saved_and_refused_saves", nontrivial)
 
+	// fault cases: processing fails inside one harness-supplied callback, then
+	// an ACCEPT majority for that proposal arrives
+	nfault := r.N(1, 4) * len(faultSites) * len(faultErrs) * 2
+
+	vlib.Parallel(nfault, 8, func(fi int) {
+		r.WithWatchdog(15*time.Minute, fmt.Sprintf("fault case %d", fi), func() {
+			r.Guard("fault-case", map[string]any{"fault_case": fi}, func() { runFaultCase(r, env, fi) })
+		})
+	})
+
 	if r.Counter("writer_saves_committed") == 0 || r.Counter("pps_save_refused") == 0 {
 		r.Inconclusive("no block was saved or no save was refused: nothing could refute the property")
 	}
@@ -545,4 +555,212 @@ func runCase(r *vlib.Run, env *prig.Env, ci int) bool {
 	}
 
 	return nontrivial
+}
+
+var faultSites = []string{"getoperation", "getstate", "newprocessor", "preprocess", "process", "newwriter", "empty"}
+
+var faultErrs = []struct {
+	Name string
+	Err  error
+}{
+	{"plain", errors.New("injected failure")},
+	{"ignore", isaac.ErrIgnoreErrorProposalProcessor.Errorf("injected, to be ignored")},
+	{"ignore-wrapped", fmt.Errorf("injected: %w", isaac.ErrIgnoreErrorProposalProcessor.Errorf("inner"))},
+	{"context-canceled", context.Canceled},
+	{"not-processed", isaac.ErrNotProposalProcessorProcessed.Errorf("injected")},
+}
+
+// runFaultCase: one proposal whose processing fails at one callback (or ends
+// with "empty operations"), driven through ProposalProcessors or on the
+// DefaultProposalProcessor directly, followed by Save with an ACCEPT majority
+// naming that proposal (new block = the manifest a fault-free processor
+// computes, or a random hash). Oracle as for the ordinary cases: no call may
+// reach the block writer's Save without the manifest the node computed for the
+// proposal and an ACCEPT majority naming exactly that manifest.
+func runFaultCase(r *vlib.Run, env *prig.Env, fi int) {
+	rng := r.Rand(2, fi)
+
+	site := faultSites[fi%len(faultSites)]
+	fe := faultErrs[(fi/len(faultSites))%len(faultErrs)]
+	via := []string{"pps", "direct"}[(fi/(len(faultSites)*len(faultErrs)))%2]
+
+	c := prig.GenOps(env, rng, prig.GenPrior(env, rng, 5), 4)
+	for i := range c.Metas { // every operation is fetched
+		c.Metas[i].Fetch = "ok"
+	}
+
+	if site == "empty" {
+		c.Expels, c.EMetas = nil, nil
+	}
+
+	b := c.NewBlock(nil, nil, 0)
+
+	var refm base.Manifest
+
+	if ref := b.Run(context.Background(), prig.RunOpts{Workers: 4}); ref.Writer != nil {
+		if ref.Err == nil {
+			refm = ref.Manifest
+		}
+
+		ref.Writer.Release()
+	}
+
+	newblock, avpkind := util.Hash(rhash(rng)), "random-newblock"
+	if refm != nil && rng.Intn(2) == 0 {
+		newblock, avpkind = refm.Hash(), "reference-newblock"
+	}
+
+	pr := b.Proposal
+	avp := env.ACCEPT(pr.Point(), pr.Fact().Hash(), newblock, c.Prior.Threshold())
+
+	index := rng.Intn(2)
+	switch site {
+	case "getoperation":
+		index = rng.Intn(len(c.Ops))
+	case "newwriter":
+		index = 0
+	}
+
+	var wmu sync.Mutex
+
+	var writers []*prig.RecWriter
+
+	var faults []*prig.Fault
+
+	hooks := &prig.WriterHooks{OnNew: func(w *prig.RecWriter) {
+		wmu.Lock()
+		writers = append(writers, w)
+		wmu.Unlock()
+	}}
+
+	newProcessor := func() (*isaac.DefaultProposalProcessor, error) {
+		f := &prig.Fault{Site: site, Index: index, Err: fe.Err}
+
+		wmu.Lock()
+		faults = append(faults, f)
+		wmu.Unlock()
+
+		return b.NewProcessor(prig.RunOpts{Workers: 4, Fault: f}, hooks)
+	}
+
+	var perr, serr error
+
+	var pm base.Manifest
+
+	var bm base.BlockMap
+
+	ctx := context.Background()
+
+	switch via {
+	case "pps":
+		pps := isaac.NewProposalProcessors(
+			func(base.ProposalSignFact, base.Manifest) (isaac.ProposalProcessor, error) { return newProcessor() },
+			func(context.Context, base.Point, util.Hash) (base.ProposalSignFact, error) { return pr, nil },
+		)
+		pps.SetRetryLimit(1).SetRetryInterval(time.Millisecond)
+
+		f, err := pps.Process(ctx, pr.Point(), pr.Fact().Hash(), c.Prior.Previous, b.IVP)
+		perr = err
+
+		if err == nil && f != nil {
+			pm, perr = f(ctx)
+		}
+
+		bm, serr = pps.Save(ctx, pr.Fact().Hash(), avp)
+	default:
+		pp, err := newProcessor()
+		if err != nil {
+			panic(err)
+		}
+
+		pm, perr = pp.Process(ctx, b.IVP)
+		bm, serr = pp.Save(ctx, avp)
+	}
+
+	fired := false
+
+	wmu.Lock()
+	ws := append([]*prig.RecWriter{}, writers...)
+
+	for _, f := range faults {
+		fired = fired || f.Fired()
+	}
+	wmu.Unlock()
+
+	witness := map[string]any{
+		"fault_case": fi, "site": site, "index": index, "error": fe.Name, "via": via, "accept": avpkind, "fault_fired": fired,
+		"process_manifest": pm != nil, "process_error": fmt.Sprintf("%v", firstLine(perr)), "save_returned_blockmap": bm != nil, "save_error": firstLine(serr),
+		"operations": c.KindCounts(),
+	}
+
+	nsaves := 0
+
+	for _, w := range ws {
+		_, _, _, saves := w.Snapshot()
+
+		for _, s := range saves {
+			nsaves++
+
+			r.Count("fault_writer_save_calls", 1)
+
+			switch {
+			case s.Manifest == nil:
+				r.Violation("writer-save:without-manifest",
+					fmt.Sprintf("fault case %d (%s fails with %s, via %s): the block writer's Save was reached although processing produced no manifest", fi, site, fe.Name, via), witness)
+			case s.AVP == nil || s.AVP.BallotMajority() == nil:
+				r.Violation("writer-save:without-accept-majority", fmt.Sprintf("fault case %d", fi), witness)
+			case !s.AVP.BallotMajority().NewBlock().Equal(s.Manifest.Hash()):
+				r.Violation("writer-save:accept-newblock-differs-from-manifest",
+					fmt.Sprintf("fault case %d: saved for manifest %s, ACCEPT majority new block %s", fi, s.Manifest.Hash(), s.AVP.BallotMajority().NewBlock()), witness)
+			case !s.AVP.BallotMajority().Proposal().Equal(s.Proposal):
+				r.Violation("writer-save:accept-proposal-differs-from-processed-proposal", fmt.Sprintf("fault case %d", fi), witness)
+			}
+		}
+	}
+
+	if bm != nil && serr == nil {
+		r.Count("fault_save_returned_blockmap", 1)
+
+		switch {
+		case pm == nil:
+			r.Violation("save:returned-blockmap-although-process-gave-no-manifest",
+				fmt.Sprintf("fault case %d (%s fails with %s, via %s): Save returned a block map, Process had returned error %q", fi, site, fe.Name, via, firstLine(perr)), witness)
+		case !bm.Manifest().Hash().Equal(pm.Hash()) || !bm.Manifest().Hash().Equal(newblock):
+			r.Violation("save:returned-block-differs-from-computed-manifest-or-accept-newblock", fmt.Sprintf("fault case %d", fi), witness)
+		case nsaves != 1:
+			r.Violation(fmt.Sprintf("pps-save:returned-blockmap-with-%d-writer-saves", nsaves), fmt.Sprintf("fault case %d", fi), witness)
+		}
+	} else {
+		r.Count("fault_save_refused", 1)
+	}
+
+	r.Eval(1)
+	r.Count("fault_cases", 1)
+	r.Count(fmt.Sprintf("fault_%s/%s:process=%s", site, via, map[bool]string{true: "manifest", false: "error"}[pm != nil]), 1)
+
+	if fired {
+		r.Count("fault_cases_where_fault_fired", 1)
+
+		if pm == nil {
+			r.Count("fault_cases_without_manifest_followed_by_save", 1)
+		}
+
+		r.Distinct(fmt.Sprintf("fault/%s/%s/%s/%s", site, fe.Name, via, avpkind))
+	}
+
+	if fi%23 == 0 {
+		r.Sample(witness)
+	}
+
+	for _, w := range ws {
+		w.Release()
+	}
+}
+
+func firstLine(err error) string {
+	if err == nil {
+		return ""
+	}
+
+	return strings.SplitN(err.Error(), "\n", 2)[0]
 }
